@@ -9,7 +9,9 @@ before, of garbage collections, of the order of the configuration calls or of th
      sets ("groups": cfg = every order of the mode setters / New options / child creation;
      seq = every pair/triple of consecutive records and collections over loggers of the three
      formats; lvl = RegisterLevel / SetLevelOutputWidth between records; dbg = the process-wide
-     debug/trace switches; big = size classes around powers of two), invariants and the
+     debug/trace switches; big = size classes around powers of two; clr = SetLevelColors of a
+     built-in and a custom severity with every combination {no fg, fg} x {none, bg, attribute}
+     between records of 1..4 lines), invariants and the
      history-independence action property are checked, the labelled graph is dumped;
      EncoderHistMech.tla shows which hidden-state disciplines leak (witnesses).
   2. An edge cover of each graph plus seeded random deeper histories over the union vocabulary
@@ -133,14 +135,17 @@ def groups(fmt, quick):
     own1 = [node(45, "string", 45)]
     gs = []
     base = dict(customs=[], regforms=[], widths=[], minwidths=[], switchkinds=[], switchvias=[], gcs=[], forms=[], hist=1,
-                kinds="split")
+                kinds="split", colsevs=[], colfgs=[], colbgs=[])
     # --- cfg: how a logger got into its mode
     gs.append(dict(base, name="cfg", hist=0 if quick else 1,
                    slots=[dict(mode="color", named=False, own=[]), dict(mode="color", named=True, own=own1)],
                    forms=cfg_forms(2, quick),
                    classes=[rc(4, M1, [node(1, "int", 1)], cls="s"),
                             rc(3, M3, [node(1, "error", 1)], via="ctx", caller=True, cls="m"),
-                            rc(9, MT, [node(1, "string", 1), node(2, "group", 2, sub=[node(3, "int", 3)])], via="logattrs", cls="t")]))
+                            # a group whose members carry reserved field names (ordinary attributes: req.time, req.msg)
+                            rc(9, MT, [node(1, "string", 1), node(2, "group", 2, sub=[node(3, "int", 3), node(98, "string", 4),
+                                                                                       node(99, "time", 5)])],
+                               via="logattrs", cls="t")]))
     # --- seq: consecutive records / collections over loggers of all three formats
     seq_classes = [rc(4, M1, [], cls="bare"),
                    rc(3, M1, [node(1, "int", 1)], cls="a1"),
@@ -177,6 +182,18 @@ def groups(fmt, quick):
     gs.append(dict(base, name="big", hist=1,
                    slots=[dict(mode=f0, named=False, own=[]), dict(mode=col_other, named=True, own=own1)],
                    classes=big_classes(quick) + [rc(4, M1, [node(1, "int", 1)], cls="small")]))
+    # --- clr: the process-wide level colour table (SetLevelColors) between records of 1..4 lines
+    clr_slots = [dict(mode="color", named=False, own=[]), dict(mode="json", named=True, own=own1)] if fmt == "color" else \
+                [dict(mode=f0, named=False, own=[]), dict(mode="color", named=True, own=own1)]
+    gs.append(dict(base, name="clr", hist=0 if quick else 1, customs=[101], regforms=["title", "tagsbg"], colsevs=[4, 101],
+                   colfgs=["none", "fg"], colbgs=["none", "bg", "attr"], slots=clr_slots,
+                   classes=[rc(4, M1, [], cls="i1"),
+                            rc(4, ["plain", "LF", "plain"], [node(1, "int", 1)], via="ctx", cls="i2"),
+                            rc(4, M3, [node(1, "string", 1)], cls="i3"),
+                            rc(4, ["plain", "LF", "LF", "plain", "LF", "plain"], [node(1, "error", 1)], via="ctx", cls="i4"),
+                            rc(101, M1, [node(1, "int", 1)], via="logattrs", cls="c1"),
+                            rc(101, M3 + ["LF"], [node(1, "string", 1), node(2, "group", 2, sub=[node(3, "int", 3)])],
+                               via="logattrs", caller=True, cls="c3")]))
     return gs
 
 
@@ -184,7 +201,7 @@ def mix_group(fmt, quick):
     """Union vocabulary for the random deeper histories (validated, not explored exhaustively)."""
     gs = {g["name"]: g for g in groups(fmt, quick)}
     classes = []
-    for n in ("cfg", "seq", "lvl", "dbg"):
+    for n in ("cfg", "seq", "lvl", "dbg", "clr"):
         classes += gs[n]["classes"]
     bigs = [c for c in gs["big"]["classes"] if c["cls"] == "big"]
     classes += bigs[:3] + bigs[-2:]
@@ -192,6 +209,7 @@ def mix_group(fmt, quick):
     return dict(name="mix", hist=0, kinds="split", customs=[101, 102, 103], regforms=["title", "titlecolor", "tags", "tagsbg"],
                 widths=[1, 2, 3, 4, 5], minwidths=[16, 36, 80], switchkinds=["debug", "trace"],
                 switchvias=["set", "child", "new", "pkg", "ext"], gcs=[1, 2], forms=cfg_forms(3, quick),
+                colsevs=[2, 3, 4, 5, 9, 101, 102, 103], colfgs=["none", "fg"], colbgs=["none", "bg", "attr"],
                 slots=[dict(mode=fmt, named=False, own=own3), dict(mode=rot(fmt, 1), named=True, own=[]),
                        dict(mode=rot(fmt, 2), named=False, own=[node(45, "error", 45)])],
                 classes=classes)
@@ -213,6 +231,7 @@ def tla_consts(g):
         RecClasses=[dict(sev=c["sev"], msg=c["msg"], args=c["args"], caller=c["caller"], cls=c["cls"]) for c in g["classes"]],
         Customs=set(g["customs"]), RegForms=set(g["regforms"]), Widths=set(g["widths"]), MinWidths=set(g["minwidths"]),
         SwitchKinds=set(g["switchkinds"]), SwitchVias=set(g["switchvias"]), GCs=set(g["gcs"]),
+        ColSevs=set(g.get("colsevs", [])), ColFgs=set(g.get("colfgs", [])), ColBgs=set(g.get("colbgs", [])),
         ProcKinds={True, False},
     )
 
@@ -239,6 +258,8 @@ def label_to_event(label, counter):
         return dict(op="SetWidth", w=a[0])
     if name == "SetMinW":
         return dict(op="SetMinW", m=a[0])
+    if name == "SetColors":
+        return dict(op="SetColors", c=a[0], fg=a[1], bg=a[2])
     raise Undecided("unknown action label %r" % label)
 
 
@@ -246,7 +267,8 @@ def explore(ctx, g):
     """Exhaustive TLC run of one group with graph dump -> cover behaviours (lists of events)."""
     mc, cfg = gen_mc("MC_EncH_" + g["name"], "EncoderHist", tla_consts(g),
                      ["INIT HInit", "NEXT HNext", "ALIAS DumpAlias", "CHECK_DEADLOCK FALSE",
-                      "INVARIANTS TypeOK OblLive OthersDoNotMatter SwitchesDoNotMatter", "PROPERTIES EmitsAreSilent"],
+                      "INVARIANTS TypeOK OblLive OthersDoNotMatter SwitchesDoNotMatter ColoursOfOthersDoNotMatter",
+                      "PROPERTIES EmitsAreSilent"],
                      plain=dict(PLAIN, HistDepth=g["hist"]))
     dot = os.path.join(ctx.scratch, "ench-graph-" + g["name"])
     nm = "MC_EncH_" + g["name"]
@@ -279,7 +301,7 @@ def explore(ctx, g):
 def mech_group():
     own2 = [node(40, "int", 40), node(41, "string", 41)]
     return dict(name="mech", hist=0, kinds="both", customs=[101], regforms=["tags"], widths=[2, 3], minwidths=[],
-                switchkinds=["debug"], switchvias=["ext"], gcs=[1],
+                switchkinds=["debug"], switchvias=["ext"], gcs=[1], colsevs=[2], colfgs=["none"], colbgs=["attr"],
                 forms=[dict(how="set", p=0, calls=[J]), dict(how="set", p=0, calls=[CT]), dict(how="new", p=0, calls=[CF])],
                 slots=[dict(mode="json", named=False, own=own2), dict(mode="color", named=True, own=[]),
                        dict(mode="logfmt", named=False, own=[node(45, "string", 45)])],
@@ -287,11 +309,11 @@ def mech_group():
                          rc(2, M3, [node(1, "error", 1)], cls="multi"), rc(101, M1, [node(1, "int", 1)], cls="c1")])
 
 
-MECH_VARIANTS = ["faithful", "keep-restlines", "memo-tags", "alias-own", "debug-live"]
+MECH_VARIANTS = ["faithful", "keep-restlines", "memo-tags", "alias-own", "debug-live", "fg-only-close"]
 
 
 def mech_check(ctx):
-    """EncoderHistMech: the faithful disciplines do not leak, four sloppy ones do (vacuity of NoLeak)."""
+    """EncoderHistMech: the faithful disciplines do not leak, five sloppy ones do (vacuity of NoLeak)."""
     res = {}
     g = mech_group()
 
@@ -304,7 +326,7 @@ def mech_check(ctx):
                     heap="2g", allow_fail=True, timeout=600)
         return variant, r
 
-    with concurrent.futures.ThreadPoolExecutor(max_workers=5) as ex:
+    with concurrent.futures.ThreadPoolExecutor(max_workers=6) as ex:
         for variant, r in ex.map(one, MECH_VARIANTS):
             violated = "NoLeak" in r.invariant_violated
             if variant == "faithful":
@@ -351,6 +373,10 @@ def random_behaviours(g, rng, count, depth):
                 beh.append(dict(op="Switch", k=rng.choice(g["switchkinds"]), v=rng.choice(g["switchvias"]), l=rng.randint(1, ns)))
             elif x < 0.92 and g["switchkinds"]:
                 beh.append(dict(op="SwitchOff"))
+            elif x < 0.945 and g.get("colsevs"):
+                c = rng.choice(g["colsevs"])
+                if c < 100 or c in g["customs"]:
+                    beh.append(dict(op="SetColors", c=c, fg=rng.choice(g["colfgs"]), bg=rng.choice(g["colbgs"])))
             elif x < 0.97 and g["widths"]:
                 beh.append(dict(op="SetWidth", w=rng.choice(g["widths"])))
             elif g["minwidths"]:
@@ -484,6 +510,8 @@ def event_classes(g, events, rows):
             out.append("W")
         elif op == "SetMinW":
             out.append("MW")
+        elif op == "SetColors":
+            out.append("Col(%s,%s+%s)" % ("builtin" if ev["c"] < 100 else "custom", ev["fg"], ev["bg"]))
         else:
             out.append(op)
     return out
@@ -573,7 +601,7 @@ def differential(ctx, fmt, g, run, rows, limit, tag):
         op = row["op"]
         if op == "Reset":
             st = dict(modes=[getter_mode(m[0], m[1]) for m in row["modes"]], named=list(row["named"]), width=row["width"],
-                      minw=row["minw"], reg={}, dbg=row["dbg"], trc=row["trc"])
+                      minw=row["minw"], reg={}, col={}, dbg=row["dbg"], trc=row["trc"])
             k = -1
         else:
             k += 1
@@ -582,6 +610,10 @@ def differential(ctx, fmt, g, run, rows, limit, tag):
             st["named"][row["l"] - 1] = row["named"]
         elif op == "Register" and row["ok"]:
             st["reg"][row["c"]] = row["g"]
+            if row["g"] in ("titlecolor", "tags", "tagsbg"):
+                st["col"].pop(str(row["c"]), None)
+        elif op == "SetColors":
+            st["col"][str(row["c"])] = [row["fg"], row["bg"]]
         elif op in ("Switch", "SwitchOff"):
             st["dbg"], st["trc"] = row["dbg"], row["trc"]
         elif op == "SetWidth" and 1 <= row["w"] <= 5:
@@ -606,6 +638,7 @@ def differential(ctx, fmt, g, run, rows, limit, tag):
         ev = evs[i]
         beh = [dict(op="Init", modes=s0["modes"], named=s0["named"])]
         beh += [dict(op="Register", c=int(c), g=f) for c, f in sorted(s0["reg"].items())]
+        beh += [dict(op="SetColors", c=int(c), fg=v[0], bg=v[1]) for c, v in sorted(s0["col"].items())]
         if s0["width"] != 3:
             beh.append(dict(op="SetWidth", w=s0["width"]))
         if s0["minw"] != 36:
@@ -632,6 +665,19 @@ def differential(ctx, fmt, g, run, rows, limit, tag):
             if len(ex) < 6:
                 ex.append(dict(group=g["name"], line=i + 1, differs_in=sorted(k2 for k2 in set(a) | set(b) if a.get(k2) != b.get(k2))))
     return out
+
+
+ATTR_DIAGS = {"invalid-json", "members", "top-level-members", "unparsable", "pairs"}
+
+
+def known_matches(key, fmt, b):
+    """Does a rejected record (TLC's @@bad entry) carry the feature a listed per-record finding names?
+    Only reserved-member-key findings reach histories (<fmt>:member-key:<name>:<kind>)."""
+    p = key.split(":")
+    if len(p) < 4 or p[0] != fmt or p[1] != "member-key" or not set(b["diag"]) <= ATTR_DIAGS:
+        return False
+    return any(f.split(":")[0] == "member-key" and p[2] in (f.split(":")[1], "*") and p[3] in (f.split(":")[2], "*")
+               for f in b["feats"])
 
 
 # ------------------------------------------------------------------ the component
@@ -753,7 +799,8 @@ def run_history(ctx, fmt):
                         stats["emits_own_format"] += 1
                     cur = "E(%s,%d,%d)" % (m, row["l"], row["r"])
                 else:
-                    cur = row["op"] + str(row.get("g", "")) + str(row.get("k", "")) + str(row.get("v", "")) + str(row.get("w", ""))
+                    cur = row["op"] + str(row.get("g", "")) + str(row.get("k", "")) + str(row.get("v", "")) + str(row.get("w", "")) + \
+                        str(row.get("fg", "")) + str(row.get("bg", ""))
                 sigs.add((g["name"], run["testing"], prev, cur))
                 prev = cur
         for ri, run in enumerate(runs):
@@ -770,6 +817,15 @@ def run_history(ctx, fmt):
                     ctx.extra["hist_other_format_examples"].append(dict(group=g["name"], fmt=b["fmt"], diag=b["diag"]))
                 continue
             stats["rejected_own_format"] += 1
+            # a listed finding of the per-record component (reserved member key) whose feature the record carries
+            kn = [k["key"] for k in ctx.known if known_matches(k["key"], fmt, b)]
+            if kn:
+                run = runs[ri]
+                ctx.finding(kn[0], "%s record inside a history (group %s) carries the feature of the listed finding; violated %s"
+                            % (fmt, g["name"], ",".join(sorted(b["diag"]))),
+                            dict(kind="enchist", fmt=fmt, testing=run["testing"], seed=ctx.seed, key=kn[0], diag=sorted(b["diag"]),
+                                 group=g, base=0, behaviours=run["behaviours"][:bi] + [run["behaviours"][bi][:ei + 1]]))
+                continue
             run = runs[ri]
             beh = run["behaviours"][bi]
             rows = rows_all[ri]
